@@ -82,6 +82,17 @@ theorem userData_step (w : W) (id : Nat) (telnet : Bool) (text : String) : Step 
     · exact Step.trans (mapConn_step w id (bufferText _ _) (fun _ => rfl) (fun _ h => h)) (addOut_step _ _ _)
     · exact mapConn_step w id (bufferText _ _) (fun _ => rfl) (fun _ h => h)
 
+theorem snoopInput_step (rh : HookFn) (hrh : HookOK rh) (w : W) (id : Nat) (text : String) :
+    Step w (snoopInput rh w id text).1 := by
+  unfold snoopInput
+  split
+  · exact Step.refl w
+  · split
+    · exact Step.refl w
+    · split
+      · exact Step.trans (emit_same _ _).step (hrh _ _ _)
+      · exact Step.refl w
+
 theorem ioEvent_cstep (S : Scripts) (rh : HookFn) (hrh : HookOK rh) (w : W) (e : IoEv)
     (hc : ∀ t, e = .console t → w.users.isSome = true) : CStep w (ioEvent S rh w e).1 := by
   cases e with
@@ -93,7 +104,7 @@ theorem ioEvent_cstep (S : Scripts) (rh : HookFn) (hrh : HookOK rh) (w : W) (e :
     · exact CStep.refl w
     · split
       · exact CStep.refl w
-      · exact Step.toC (userData_step _ _ _ _)
+      · exact Step.toC (Step.trans (userData_step _ _ _ _) (snoopInput_step rh hrh _ _ _))
   | eof client =>
     simp only [ioEvent]
     split
